@@ -121,3 +121,41 @@ def write_case(work, rng, H, W, arr_origin, arr_shape, window):
     case = [1, H, W, ar, ac, ah, aw, r, c, h, w, min(err, 1), *before.ravel().tolist(), *arr.ravel().tolist(), *after.ravel().tolist()]
     return dict(case=[float(x) for x in case], oracle_ok=bool(oracle_ok), err=err, exc=exc,
                 desc=dict(H=H, W=W, arr_origin=[ar, ac], arr_shape=[ah, aw], window=list(window)))
+
+
+def write_mask_case(work, rng, H, W, arr_origin, arr_shape, window):
+    """to_rio_dataset into a dataset WITHOUT a nodata value (validity lives in the internal mask): a geo-placed array with invalid pixels is
+    written through a window; read back pixels and mask.  Oracle: inside the cropped window the mask is the array's validity at that
+    location and valid pixels hold the array's values; outside, pixels and mask are untouched."""
+    from homonim.raster_array import RasterArray
+    path = work / 'io_wm.tif'
+    before = np.array([[rng.randint(1, 99) for _ in range(W)] for _ in range(H)], dtype='float32')
+    ar, ac = arr_origin
+    ah, aw = arr_shape
+    arr = np.array([[100 + rng.randint(1, 99) for _ in range(aw)] for _ in range(ah)], dtype='float32').reshape(ah, aw)
+    valid = np.array([[rng.random() > 0.35 for _ in range(aw)] for _ in range(ah)]).reshape(ah, aw)
+    arr = np.where(valid, arr, np.float32('nan')).astype('float32')
+    prof = dict(driver='GTiff', width=W, height=H, count=1, dtype='float32', crs=synth.UTM, transform=T0, nodata=None)
+    err = None
+    with rio.Env(GDAL_NUM_THREADS=1, GDAL_TIFF_INTERNAL_MASK=True), rio.open(path, 'w', **prof) as ds:
+        ds.write(before, 1)
+        ds.write_mask(np.ones((H, W), bool))
+        ra = RasterArray(arr, synth.UTM, T0 * Affine.translation(ac, ar), nodata=float('nan'))
+        win = Window(window[1], window[0], window[3], window[2])
+        try:
+            ra.to_rio_dataset(ds, indexes=1, window=win)
+        except Exception as ex:      # noqa: BLE001
+            err = f'{type(ex).__name__}: {str(ex)[:120]}'
+    with rio.Env(GDAL_TIFF_INTERNAL_MASK=True), rio.open(path) as ds:
+        after = ds.read(1)
+        mask = ds.read_masks(1) > 0
+    r, c, h, w = window
+    exp_v, exp_m = before.copy(), np.ones((H, W), bool)
+    for rr in range(max(r, 0), min(r + h, H)):
+        for cc in range(max(c, 0), min(c + w, W)):
+            exp_m[rr, cc] = bool(valid[rr - ar, cc - ac])
+            exp_v[rr, cc] = arr[rr - ar, cc - ac]
+    ok = err is None and np.array_equal(mask, exp_m) and bool(np.all((after == exp_v) | ~exp_m))
+    return dict(oracle_ok=bool(ok), err=err, desc=dict(H=H, W=W, arr_origin=[ar, ac], arr_shape=[ah, aw], window=list(window), dataset_nodata=None,
+                                                       array_invalid=int((~valid).sum())),
+                observed=dict(mask_mismatches=int((mask != exp_m).sum()) if err is None else None))
